@@ -54,9 +54,11 @@ var _ Pass = (*DisjunctionToType)(nil)
 //		}
 //		```
 type DisjunctionToType struct {
+	schemas ast.Schemas
 }
 
 func (pass *DisjunctionToType) Process(schemas []*ast.Schema) ([]*ast.Schema, error) {
+	pass.schemas = schemas
 	visitor := &Visitor{
 		OnDisjunction: pass.processDisjunction,
 	}
@@ -75,7 +77,7 @@ func (pass *DisjunctionToType) processDisjunction(visitor *Visitor, schema *ast.
 
 	// Ex: "some concrete value" | "some other value" | string
 	if pass.hasOnlySingleTypeScalars(schema, disjunction) {
-		resolvedType, _ := schema.Resolve(disjunction.Branches[0])
+		resolvedType, _ := pass.schemas.Resolve(disjunction.Branches[0])
 		scalarKind := resolvedType.AsScalar().ScalarKind
 
 		scalar := ast.NewScalar(scalarKind, ast.Default(def.Default))
@@ -170,7 +172,7 @@ func (pass *DisjunctionToType) hasOnlySingleTypeScalars(schema *ast.Schema, disj
 		return false
 	}
 
-	firstBranchType, found := schema.Resolve(branches[0])
+	firstBranchType, found := pass.schemas.Resolve(branches[0])
 	if !found {
 		return false
 	}
@@ -181,7 +183,7 @@ func (pass *DisjunctionToType) hasOnlySingleTypeScalars(schema *ast.Schema, disj
 
 	scalarKind := firstBranchType.AsScalar().ScalarKind
 	for _, t := range branches {
-		resolvedType, found := schema.Resolve(t)
+		resolvedType, found := pass.schemas.Resolve(t)
 		if !found {
 			return false
 		}
